@@ -82,12 +82,13 @@ Definition ranges_hashchain (n size : Z) : list range :=
   let c := (size - 2 + n' - 1) / n' in
   map (fun k => (1 + k * c, zmin (1 + k * c + c) (size - 1))) (zrange n').
 
-(** Algorithm choices that depend on [n] (the C12 findings). *)
+(** Algorithm choices: since the fixes (work/patches/c12-*.diff) they no longer depend
+    on [n]; the parameter is kept so that the statements still quantify over it. *)
 Definition hashchain_uses_parallel (n size : Z) (lowEffort : bool) : bool :=
-  (n >? 1) && (size >? 50000) && negb lowEffort.
+  (size >? 50000) && negb lowEffort.
 Definition encodeframe_uses_parallel (n mbH method : Z) (doSearch : bool) : bool :=
-  (n >? 1) && (mbH >=? 4) && (method >=? 3) && negb doSearch.
-(** CPU-independent selections (the repaired code): by size / method only. *)
+  (mbH >=? 4) && (method >=? 3) && negb doSearch.
+(** The same selections without the unused parameter. *)
 Definition hashchain_uses_parallel_fixed (size : Z) (lowEffort : bool) : bool :=
   (size >? 50000) && negb lowEffort.
 Definition encodeframe_uses_parallel_fixed (mbH method : Z) (doSearch : bool) : bool :=
@@ -142,7 +143,6 @@ Definition modelled_gomaxprocs_sites : list (string * string) :=
     ("internal/lossless/hashchain.go", "Fill");                    (* hashchain_uses_parallel, ranges_hashchain *)
     ("internal/lossy/encode.go", "importImage");                   (* ranges_prop (Y) *)
     ("internal/lossy/encode.go", "importImage");                   (* ranges_prop (UV) *)
-    ("internal/lossy/encode.go", "EncodeFrame");                   (* encodeframe_uses_parallel *)
     ("internal/lossy/encode_analysis.go", "computeAlphas");        (* ranges_compute_alphas *)
     ("internal/lossy/encode_parallel.go", "encodeFrameParallel")   (* workers_encode_parallel, ConcRowSync *)
   ].
